@@ -1,7 +1,9 @@
 #!/bin/sh
 # verify a sub-agent's seeded change in its scratch worktree: patch matches the tree, build is current,
-# repo suite passes with it, demo fails with (_b) and passes without (_b0).  usage: verify_seed.sh <worktree>
+# repo suite passes with it, demo fails with (_b) and passes without (_b0).  usage: verify_seed.sh <worktree> [demo-arg-with-change [demo-arg-without]]
 wt=$1
+with=${2:-_b}
+without=${3:-_b0}
 cd "$wt" || exit 2
 echo "== diff vs HEAD equals patch.diff?"
 git diff HEAD > /var/tmp/vs-$$.diff
@@ -11,6 +13,6 @@ echo "== build current?"
 cmake --build _b -j6 2>&1 | tail -2
 echo "== ctest"
 ctest --test-dir _b -j6 --timeout 1500 2>&1 | tail -4
-echo "== demo with change"; ./_seeded/run_demo.sh _b >/var/tmp/vs-demo-b.$$ 2>&1; echo "exit $?"; tail -3 /var/tmp/vs-demo-b.$$
-echo "== demo without change"; ./_seeded/run_demo.sh _b0 >/var/tmp/vs-demo-b0.$$ 2>&1; echo "exit $?"; tail -3 /var/tmp/vs-demo-b0.$$
+echo "== demo with change"; ./_seeded/run_demo.sh $with >/var/tmp/vs-demo-b.$$ 2>&1; echo "exit $?"; tail -3 /var/tmp/vs-demo-b.$$
+echo "== demo without change"; ./_seeded/run_demo.sh $without >/var/tmp/vs-demo-b0.$$ 2>&1; echo "exit $?"; tail -3 /var/tmp/vs-demo-b0.$$
 rm -f /var/tmp/vs-demo-b.$$ /var/tmp/vs-demo-b0.$$
